@@ -80,11 +80,11 @@ func VerifH_C08_shuffle() {
 }
 
 // C08 fletcher32: round trip, and every single-byte alteration of the stored chunk is reported (writer-side
-// Remove and reader-side decoder). n <= 6 data bytes; position and new value of the altered byte symbolic.
+// Remove and reader-side decoder). n <= 4 data bytes (5 thorough); position and new value of the altered byte symbolic.
 func VerifH_C08_fletcher32() {
 	max := 4
 	if vrt.Thorough() {
-		max = 6
+		max = 5 // 6 data bytes: one query of the modulo-65535 sums does not finish within the solver's time limit
 	}
 	n := vrt.Choice(max + 1)
 	data := vrt.Bytes(n)
@@ -226,4 +226,61 @@ func VerifH_C08_lzf_window() {
 	vrt.AssertNoErr(err, "reader-decodes-lzf")
 	vrt.Assert(verifEq(back, data), "reader-lzf-roundtrip")
 	vrt.Covered("lzf-window-done")
+}
+
+// C08 lzf, back references of every short length: "Z" + W + W[:L] + t with W = 12 distinct bytes, L forked over 3..12
+// (the 2-byte / 3-byte encoding boundary at 8/9 included), terminator symbolic.
+func VerifH_C08_lzf_match_lengths() {
+	L := 3 + vrt.Choice(10)
+	w := []byte("ABCDEFGHIJKL")
+	data := []byte{'Z'}
+	data = append(data, w...)
+	data = append(data, w[:L]...)
+	if vrt.Bool() {
+		t := vrt.U8() // a literal after the match: 16 values 'P'..'_' (the compressor's hash table is indexed by it)
+		vrt.Assume(t&0xF0 == 0x50)
+		data = append(data, t)
+	}
+	f := NewLZFFilter()
+	enc, err := f.Apply(data)
+	vrt.AssertNoErr(err, "lzf-apply-ok")
+	dec, err := f.Remove(enc)
+	vrt.AssertNoErr(err, "lzf-remove-ok")
+	vrt.Assert(verifEq(dec, data), "lzf-roundtrip")
+	p := NewFilterPipeline()
+	p.AddFilter(f)
+	fpm := verifReaderPipeline(p)
+	back, err := fpm.ApplyFilters(enc)
+	vrt.AssertNoErr(err, "reader-decodes-lzf")
+	vrt.Assert(verifEq(back, data), "reader-lzf-roundtrip")
+	vrt.Covered("lzf-done")
+}
+
+// C08 fletcher32 on inputs longer than one / two 360-word summation blocks: 724 and 1446 concrete data bytes, one of the
+// last 8 data bytes (words 358..361 / 719..722) or of the 4 checksum bytes replaced by an arbitrary other value: the
+// writer-side decoder reports it. (Earlier positions put hundreds of nested mod-65535 steps behind the symbolic byte;
+// the short harness covers them for short inputs.)
+func VerifH_C08_fletcher32_long() {
+	vrt.LoopBound(20000)
+	n := []int{724, 1446}[vrt.Choice(2)]
+	data := make([]byte, n)
+	for i := range data {
+		data[i] = byte(i*7 + 3)
+	}
+	f := NewFletcher32Filter()
+	enc, err := f.Apply(data)
+	vrt.AssertNoErr(err, "fletcher-apply-ok")
+	vrt.Assert(len(enc) == n+4, "fletcher-appends-4-bytes")
+	dec, err := f.Remove(enc)
+	vrt.AssertNoErr(err, "fletcher-remove-ok")
+	vrt.Assert(verifEq(dec, data), "fletcher-roundtrip")
+	// the last 8 data bytes (the word that starts the next summation block is among them) and the checksum
+	pos := n - 8 + vrt.Choice(12)
+	nv := vrt.U8()
+	vrt.Assume(nv != enc[pos])
+	bad := append([]byte(nil), enc...)
+	bad[pos] = nv
+	_, err = f.Remove(bad)
+	vrt.Assert(err != nil, "fletcher-writer-side-detects-single-byte-corruption")
+	vrt.Covered("fletcher-done")
 }
